@@ -21,6 +21,9 @@ constexpr long NONE = -987654321L;
 // functor state: every rule functor carries the salt of the parser object it was given to; a call through one object must only ever run that object's functors
 inline thread_local long expect_salt = 0; inline std::atomic<long> salt_bad{ 0 };
 inline void check_salt(long salt) { if (salt != expect_salt) ++salt_bad; }
+// every stream handed to the library carries a locale with digit grouping: what a call changes in the caller's stream (flags, locale) shows up later
+struct grouping : std::numpunct<char> { char do_thousands_sep() const override { return ','; } std::string do_grouping() const override { return "\3"; } };
+inline void prep(std::ostream& s) { s.imbue(std::locale(s.getloc(), new grouping)); }
 inline thread_local bool fresh_mode = false;     // isolated results: every call on an object without any history (a copy of a never-used parser)
 inline thread_local long (*nest_fn)(const std::string&) = nullptr;
 inline thread_local const std::string* nest_in = nullptr;
@@ -59,12 +62,17 @@ template<bool IsCtx, class P> Res do_op(const P& p, int op, const std::string& i
         case 0: {
             // outside the isolated phase every thread keeps ONE std::ostringstream for all its calls (text cleared, formatting state kept): what a call
             // leaves behind in the caller's stream (sticky manipulators) shows up in the text of a later call
-            static thread_local std::ostringstream kept; std::ostringstream fresh_ss;
+            static thread_local std::ostringstream kept; static thread_local bool kept_ready = (prep(kept), true); (void)kept_ready; std::ostringstream fresh_ss; prep(fresh_ss);
             std::ostringstream& ss = (fresh_mode || nest_fn || nest_depth > 0) ? fresh_ss : kept; ss.str(std::string());      // (nested parses would share the kept stream with their outer parse)
             string_buffer b{ std::string(in) }; if constexpr (IsCtx) { Ctx c; r.v = ov(p.context_parse(c, b, ss)); r.extra = c.calls; } else r.v = ov(p.parse(b, ss)); r.sh = hash(ss.str()); break; }
         case 1: { string_buffer b{ std::string(in) }; ystream ss; if constexpr (IsCtx) { Ctx c; r.v = ov(p.context_parse(c, parse_options{}.set_verbose(), b, ss)); r.extra = c.calls; } else r.v = ov(p.parse(parse_options{}.set_verbose(), b, ss)); r.sh = hash(ss.text); break; }
         case 2: { string_view_buffer b{ std::string_view(in) }; if constexpr (IsCtx) { const Ctx c; struct CX { const Ctx& c; }; r.v = NONE + 1; } else r.v = ov(p.parse(b)); break; }
-        case 3: { std::ostringstream ss; p.write_diag_str(ss); r.sh = hash(ss.str()); r.v = long(ss.str().size()); break; }
+        case 3: {
+            // write_diag_str into the stream the thread also uses for its parses (numbers >= 1000 are printed with the caller's digit grouping)
+            static thread_local std::ostringstream kept3; static thread_local bool ready3 = (prep(kept3), true); (void)ready3; std::ostringstream fresh_ss; prep(fresh_ss);
+            std::ostringstream& ss = fresh_mode ? fresh_ss : kept3; ss.str(std::string());
+            if (!fresh_mode) { string_buffer b{ std::string("\xe9?") }; if constexpr (IsCtx) { Ctx c; (void)p.context_parse(c, b, ss); } else (void)p.parse(b, ss); ss.str(std::string()); }      // a failing parse wrote to this stream before
+            p.write_diag_str(ss); r.sh = hash(ss.str()); r.v = long(ss.str().size()); break; }
         }
     } catch (const std::exception& e) { r.v = -111; }
     return r;
